@@ -132,12 +132,6 @@ def run(ck: Check) -> int:
     seqs = [s for s in H.sequences(L) if len(s) == L]
     tasks = [(cfg, ch) for cfg in cfgs for ch in _chunks(seqs, 400)]
     extra = []
-    if ck.thorough():
-        L7 = 7
-        ck.bound('call_sequence_length_partial', L7)
-        ck.rule('length 7 (thorough): all well-formed sequences from one configuration only (126/p3/after-refused)')
-        seqs7 = [s for s in H.sequences(L7) if len(s) == L7]
-        extra = [(cfg, ch) for cfg in [(126, 'p3', 'after-refused')] for ch in _chunks(seqs7, 1000)]
     procs = min(16, os.cpu_count() or 4)
     total = inj = rpc_raised = 0
     groups = {}
